@@ -54,9 +54,9 @@ fn short(callee: &str) -> String {
 
 /// U1/B1: no comparison or integer conversion of positions; literal / default positions only at tabled sites;
 /// position arithmetic only at tabled sites.
-pub fn position_inventories(cx: &mut Ctx, rule: &str, facts: &Facts, include_literals: bool) {
-    cx.rule(rule, "units discipline over rustpython_parser (resolved MIR call edges, LALRPOP internals excluded): (i) no comparison, ordering, containment or integer conversion of a TextSize/TextRange outside the derived PartialEq impls of the error structs and the one conversion of a prefix LENGTH in lex_string — nothing can branch on a position; (ii) TextSize/TextRange literals and Default values occur only at the tabled sites (byte lengths 1, the string content offset, the f-string re-basing length, indentation widths, and the three zero-offset convenience wrappers); (iii) position arithmetic (Add/Sub/AddAssign) occurs only at the tabled sites. Hence every position is `start offset + consumed bytes ± small constant`, i.e. shifting the start offset shifts every range and error offset and changes nothing else");
-    cx.floor(rule, if include_literals { 16 } else { 9 });
+pub fn position_comparisons(cx: &mut Ctx, rule: &str, facts: &Facts) {
+    cx.rule(rule, "position-blindness over rustpython_parser (resolved MIR call edges, LALRPOP internals excluded): no comparison, ordering, containment test or integer conversion of a TextSize/TextRange occurs outside the derived PartialEq impls of the two error structs and the one conversion of a prefix LENGTH in lex_string — nothing in the lexer, string parser, grammar actions or entry points can branch on a position, so neither the start offset nor the layout-dependent offsets of tokens can influence acceptance or the tree");
+    cx.floor(rule, 3);
     let Some(cf) = facts.krate("rustpython_parser") else { return cx.anchor_missing(rule, "MIR facts of rustpython_parser") };
 
     // (i) comparisons / conversions
@@ -87,66 +87,177 @@ pub fn position_inventories(cx: &mut Ctx, rule: &str, facts: &Facts, include_lit
         }
     }
     // also raw integer comparisons on TextSize's inner u32 cannot happen outside the vendored crate (field is private)
+}
 
-    // (ii) literals / defaults
-    let lits = inventory(cf, &|c| {
-        c.contains("TextSize as std::default::Default") || c.contains("TextRange as std::default::Default") || c.contains("TextSize as std::convert::From<u32>") || c.ends_with("TextSize::new")
-    });
-    let allowed_lits: BTreeMap<(&str, &str), (usize, &str)> = [
-        (("lexer::lex", "<TextSize as Default>::default"), (1, "zero-offset wrapper")),
-        (("parser::Parse::parse", "<TextSize as Default>::default"), (1, "zero-offset wrapper")),
-        (("parser::parse", "<TextSize as Default>::default"), (1, "zero-offset wrapper")),
-        (("lexer::Lexer::<T>::next_char", "<TextSize as From<u32>>::from"), (2, "byte length 1 of CR / LF")),
-        (("string::StringParser::<'a>::new", "<TextSize as From<u32>>::from"), (2, "length of the opening quote(s)")),
-        (("string::parse_fstring_expr", "<TextSize as From<u32>>::from"), (1, "length of the `(` prefix")),
-        (("lexer::Lexer::<T>::handle_indentations", "TextSize::new"), (2, "indentation widths (spaces, tabs)")),
-    ]
-    .into_iter()
-    .collect();
-    for ((caller, callee), n) in lits.iter().filter(|_| include_literals) {
-        match allowed_lits.get(&(caller.as_str(), callee.as_str())) {
-            Some((want, why)) if want == n => cx.ok(rule, &format!("{} -> {} x{} ({})", caller, callee, n, why)),
-            Some((want, _)) => cx.fail(rule, &format!("{}/literal-count/{}/{}", rule, caller, callee), "parser/src", &format!("{} has {} {} sites, {} are tabled", caller, n, callee, want)),
-            None => {
-                // the two known deviants get stable keys
-                let key = if caller.contains("Stmt as parser::Parse>::parse_tokens") {
-                    format!("{}/stmt-eof-offset", rule)
-                } else if caller == "parser::parse_filtered_tokens" {
-                    format!("{}/marker-default-range", rule)
-                } else {
-                    format!("{}/literal-position/{}/{}", rule, caller, callee)
+#[derive(Debug, Clone, Copy, PartialEq, Eq, PartialOrd, Ord)]
+enum Dim {
+    P, // a position: start offset + consumed bytes
+    L, // a length / constant
+    U, // not known (field, parameter, dereference)
+}
+
+/// producers of lengths / constants, by resolved callee suffix
+const L_BORN: &[&str] = &[
+    "TextLen>::text_len",
+    "StringKind::prefix_len",
+    "TextSize::new",
+    "<TextSize as From<u32>>::from",
+    "<TextSize as Default>::default",
+    "TextRange::len",
+    "TextSize::of",
+];
+/// parameter slots that take a length
+const L_SLOTS: &[(&str, usize)] = &[("TextRange::at", 1), ("<impl From<TextSize> for u32>::from", 0), ("<impl From<TextSize> for usize>::from", 0), ("TextSize::to_u32", 0), ("TextSize::to_usize", 0)];
+/// the zero-offset convenience wrappers: (caller, callee suffix)
+const ZERO_WRAPPERS: &[(&str, &str)] = &[("lexer::lex", "lex_starts_at"), ("parser::parse", "parse_starts_at"), ("parser::Parse::parse", "parse_starts_at")];
+
+fn arith_kind(callee: &str) -> Option<&'static str> {
+    if callee.starts_with("<TextSize as Add") && callee.ends_with("::add") {
+        Some("add")
+    } else if callee.starts_with("<TextSize as Sub") && callee.ends_with("::sub") {
+        Some("sub")
+    } else if callee.starts_with("<TextSize as AddAssign") {
+        Some("add_assign")
+    } else if callee.starts_with("<TextSize as SubAssign") {
+        Some("sub_assign")
+    } else {
+        None
+    }
+}
+
+/// Dimension discipline over the value-flow facts (VALUSE) of rustpython_parser: positions and lengths share the
+/// type TextSize; every TextSize producer is classified as a position (P) or a length/constant (L) and every
+/// arithmetic site and sink is checked for dimensional sense.
+pub fn dimension_discipline(cx: &mut Ctx, rule: &str, facts: &Facts) {
+    cx.rule(rule, "dimension discipline on TextSize (value flow inside each MIR body of rustpython_parser, LALRPOP internals excluded): every freshly produced TextSize is a position (get_pos, start/end of a range or node, the result of position ± length) or a length/constant (text_len, prefix_len, TextSize::new/from/default, len, the result of length ± length, position − position); (a) no site adds two positions, subtracts a position from a length, or += a position; (b) a length or constant never flows into a position sink (a struct/tuple field, a field store, a return value, a call argument) — its only consumers are the length operand of an arithmetic site, a length-typed parameter, an integer conversion, and the offset argument of the three zero-offset wrappers; (c) TextRange::default() is never used. Hence every position is `start offset + consumed bytes ± lengths`: shifting the start offset shifts every range and error offset and changes nothing else");
+    cx.floor(rule, 20);
+    let Some(cf) = facts.krate("rustpython_parser") else { return cx.anchor_missing(rule, "MIR facts of rustpython_parser") };
+    let vals: Vec<&crate::mir::ValUse> = cf.valuses.iter().filter(|v| !is_generated_internal(&v.func, &v.file)).collect();
+    if vals.is_empty() {
+        return cx.anchor_missing(rule, "VALUSE facts (tools/mirfacts driver too old?)");
+    }
+    cx.unit("TextSize/TextRange producers", vals.len());
+    // arithmetic sites: (func, loc) -> (kind, [dim of #0, dim of #1])
+    let site_key = |func: &str, file: &str, line: usize, col: usize| format!("{}@{}:{}:{}", func, file, line, col);
+    let mut result_dim: BTreeMap<String, Dim> = BTreeMap::new(); // arithmetic producer site -> dim
+    let base_dim = |v: &crate::mir::ValUse, result_dim: &BTreeMap<String, Dim>| -> Dim {
+        let p = short(&v.producer);
+        if arith_kind(&p).is_some() {
+            return result_dim.get(&site_key(&v.func, &v.file, v.line, v.col)).copied().unwrap_or(Dim::U);
+        }
+        if L_BORN.iter().any(|s| p.ends_with(s)) {
+            Dim::L
+        } else {
+            Dim::P
+        }
+    };
+    let mut operands: BTreeMap<String, (String, String, [Dim; 2])> = BTreeMap::new(); // site -> (func, kind, dims)
+    for _round in 0..6 {
+        operands.clear();
+        for v in &vals {
+            let d = base_dim(v, &result_dim);
+            for u in &v.uses {
+                let Some(rest) = u.strip_prefix("call:") else { continue };
+                let Some((cs, at)) = rest.rsplit_once('@') else { continue };
+                let Some((callee, ix)) = cs.rsplit_once('#') else { continue };
+                let callee = short(callee);
+                let Some(kind) = arith_kind(&callee) else { continue };
+                let ix: usize = ix.parse().unwrap_or(9);
+                if ix > 1 {
+                    continue;
+                }
+                let e = operands.entry(format!("{}@{}", v.func, at)).or_insert((v.func.clone(), kind.to_string(), [Dim::U, Dim::U]));
+                // several producers may reach one slot (branches): P dominates for #1 of add (worst case), keep max severity
+                e.2[ix] = match (e.2[ix], d) {
+                    (Dim::U, x) => x,
+                    (x, Dim::U) => x,
+                    (Dim::P, _) | (_, Dim::P) => Dim::P,
+                    _ => Dim::L,
                 };
-                cx.fail(rule, &key, "parser/src", &format!("{} builds a position from a constant ({}): an offset or range that ignores the start offset", caller, callee));
             }
         }
-    }
-    for ((caller, callee), (want, _)) in allowed_lits.iter().filter(|_| include_literals) {
-        if !lits.contains_key(&(caller.to_string(), callee.to_string())) {
-            cx.fail(rule, &format!("{}/table-stale/{}/{}", rule, caller, callee), "parser/src", &format!("tabled site {} -> {} x{} no longer exists (review the table; fail closed)", caller, callee, want));
+        let mut changed = false;
+        for (site, (_f, kind, dims)) in &operands {
+            let r = match (kind.as_str(), dims[0], dims[1]) {
+                ("add", Dim::L, Dim::L) => Dim::L,
+                ("add", _, _) => Dim::P,
+                ("sub", Dim::L, Dim::L) => Dim::L,
+                ("sub", Dim::P, Dim::P) => Dim::L,
+                ("sub", Dim::U, Dim::U) => Dim::U,
+                ("sub", Dim::U, Dim::P) | ("sub", Dim::P, Dim::U) => Dim::U,
+                ("sub", _, _) => Dim::P,
+                _ => Dim::U,
+            };
+            if result_dim.get(site) != Some(&r) {
+                result_dim.insert(site.clone(), r);
+                changed = true;
+            }
+        }
+        if !changed {
+            break;
         }
     }
-
-    // (iii) arithmetic
-    let arith = inventory(cf, &|c| c.contains("TextSize as std::ops::") || c.contains("TextRange as std::ops::"));
-    let allowed_arith: BTreeMap<(&str, &str), usize> = [
-        (("lexer::Lexer::<T>::new", "<TextSize as AddAssign<A>>::add_assign"), 1),
-        (("lexer::Lexer::<T>::next_char", "<TextSize as AddAssign<A>>::add_assign"), 3),
-        (("string::StringParser::<'a>::next_char", "<TextSize as AddAssign<A>>::add_assign"), 1),
-        (("lexer::Lexer::<T>::handle_indentations", "<TextSize as Sub>::sub"), 2),
-        (("string::parse_fstring_expr", "<TextSize as Sub>::sub"), 1),
-        (("string::StringParser::<'a>::new", "<TextSize as Add>::add"), 2),
-    ]
-    .into_iter()
-    .collect();
-    for ((caller, callee), n) in &arith {
-        match allowed_arith.get(&(caller.as_str(), callee.as_str())) {
-            Some(want) if want == n => cx.ok(rule, &format!("{} -> {} x{} (tabled position arithmetic)", caller, callee, n)),
-            _ => cx.fail(rule, &format!("{}/arithmetic/{}/{}", rule, caller, callee), "parser/src", &format!("{} performs position arithmetic {} x{} that is not in the reviewed table", caller, callee, n)),
+    // (a) arithmetic sites
+    let mut per_func: BTreeMap<String, usize> = BTreeMap::new();
+    for (_site, (func, kind, dims)) in &operands {
+        let n = per_func.entry(format!("{}/{}", func, kind)).or_insert(0);
+        *n += 1;
+        let bad = match (kind.as_str(), dims[0], dims[1]) {
+            ("add", Dim::P, Dim::P) => Some("adds two positions"),
+            ("sub", Dim::L, Dim::P) => Some("subtracts a position from a length"),
+            ("add_assign", _, Dim::P) | ("sub_assign", _, Dim::P) => Some("advances a position by a position"),
+            _ => None,
+        };
+        match bad {
+            None => cx.ok(rule, &format!("{}: {} of ({:?}, {:?})", func, kind, dims[0], dims[1])),
+            Some(why) => cx.fail(rule, &format!("{}/arith/{}/{}#{}", rule, func, kind, n), "parser/src", &format!("{} {}: the result is not `start offset + consumed bytes` any more (operand dimensions {:?}, {:?})", func, why, dims[0], dims[1])),
         }
     }
-    for ((caller, callee), want) in &allowed_arith {
-        if !arith.contains_key(&(caller.to_string(), callee.to_string())) {
-            cx.fail(rule, &format!("{}/table-stale/{}/{}", rule, caller, callee), "parser/src", &format!("tabled arithmetic site {} -> {} x{} no longer exists (fail closed)", caller, callee, want));
+    // (b), (c) sinks of lengths / constants
+    let mut per_sink: BTreeMap<String, usize> = BTreeMap::new();
+    for v in &vals {
+        let p = short(&v.producer);
+        let is_default_range = p.ends_with("<TextRange as Default>::default");
+        let d = base_dim(v, &result_dim);
+        if d != Dim::L && !is_default_range {
+            continue;
+        }
+        let func_is_l_born = L_BORN.iter().any(|s| short(&v.func).ends_with(s.trim_start_matches('<')) || s.ends_with(&format!("::{}", v.func.rsplit("::").next().unwrap_or(""))));
+        for u in &v.uses {
+            let ok = if let Some(rest) = u.strip_prefix("call:") {
+                let (cs, _) = rest.rsplit_once('@').unwrap_or((rest, ""));
+                let (callee, ix) = cs.rsplit_once('#').unwrap_or((cs, "9"));
+                let callee = short(callee);
+                let ix: usize = ix.parse().unwrap_or(9);
+                if is_default_range {
+                    false
+                } else if let Some(k) = arith_kind(&callee) {
+                    ix == 1 || k == "add" || (k == "sub" && ix == 0) // L as #0 of sub: judged at the site (a)
+                } else {
+                    L_SLOTS.iter().any(|(c, i)| callee.ends_with(c) && *i == ix) || ZERO_WRAPPERS.iter().any(|(caller, c)| v.func == *caller && callee.ends_with(c) && p.ends_with("<TextSize as Default>::default"))
+                }
+            } else if u == "return" {
+                func_is_l_born && !is_default_range
+            } else if u == "other:ref" {
+                !is_default_range
+            } else {
+                false
+            };
+            if ok {
+                cx.ok(rule, &format!("{}: {} -> {}", v.func, p, u.split('@').next().unwrap_or(u)));
+            } else {
+                let sink = u.split('@').next().unwrap_or(u).to_string();
+                let key = if v.func.contains("Stmt as parser::Parse>::parse_tokens") {
+                    format!("{}/stmt-eof-offset", rule)
+                } else if v.func == "parser::parse_filtered_tokens" && is_default_range {
+                    format!("{}/marker-default-range", rule)
+                } else {
+                    let n = per_sink.entry(format!("{}/{}/{}", v.func, p, sink)).or_insert(0);
+                    *n += 1;
+                    format!("{}/constant-position/{}/{}/{}#{}", rule, v.func, p, sink, n)
+                };
+                cx.fail(rule, &key, "parser/src", &format!("{}: the {} produced by {} flows into `{}`: a position that ignores the start offset and the consumed text", v.func, if is_default_range { "default range" } else { "length/constant" }, p, sink));
+            }
         }
     }
 }
